@@ -36,8 +36,8 @@ def fmt(x):
 
 
 VARIANTS = {
-    "full": {"gen": ["g0", "g1", "z", "s", "e"], "arc": ["a00", "a01", "a10", "a11", "asm", "a0", "z", "s"]},
-    "mid": {"gen": ["g0", "z", "s"], "arc": ["a01", "a10", "asm"]},
+    "full": {"gen": ["g0", "g1", "z", "s", "e"], "arc": ["a00", "a01", "a10", "a11", "asm", "a0", "aneg", "z", "s"]},
+    "mid": {"gen": ["g0", "z", "s"], "arc": ["a01", "a10", "asm", "aneg"]},
     "one": {"gen": ["g0"], "arc": ["a11"]},
 }
 
@@ -91,6 +91,8 @@ def gen_args(cmd, var, k, cur, start):
             rx, ry, rot, fa, fs = 0.25, 0.5, 30, 0, 1
         elif var == "a0":
             rx, ry, rot, fa, fs = 0, 2, 0, 1, 1
+        elif var == "aneg":
+            rx, ry, rot, fa, fs = -6.5, 4.25, 30, 0, 1  # the sign of a radius is dropped (F.6.6)
         elif var in ("z", "s"):
             rx, ry, rot, fa, fs = 3, 2, 15, 1, 0
         else:
@@ -235,6 +237,28 @@ def check_path(d, SVGPath, want_states=None):
         return p.d
 
     same("absolute[inplace]", run("absolute[inplace]", inplace), form=no_lower)
+
+    # several steps on ONE object: every later rewrite / normalisation must see what the earlier steps did
+    def same_object():
+        p = P()
+        p.as_cmd_seq()
+        p.bounding_box()
+        msgs = []
+        for step in ("relative", "explicit_lines", "expand_shorthand", "absolute", "arcs_to_cubics"):
+            getattr(p, step)(inplace=True)
+            seen = SVGPath.from_commands(p.as_cmd_seq()).d
+            why = R1.compare_curves(R1.interpret_string(p.d), R1.interpret_string(seen), tol, tol_arc) if p.d else None
+            if why:
+                msgs.append(f"after {step}(inplace=True) as_cmd_seq() describes another curve than d={p.d!r}: {why}")
+                break
+        p.d = "M0,0 L3,0 L3,4 Z"
+        if [c for c, _ in p.as_cmd_seq()] != ["M", "L", "L", "Z"] or tuple(p.bounding_box()) != (0, 0, 3, 4):
+            msgs.append("after assigning d, as_cmd_seq()/bounding_box() still describe the old path")
+        if msgs:
+            raise AssertionError("; ".join(msgs))
+        return None
+
+    run("same-object-sequence", same_object)
 
     # move
     dx, dy = 2.5, -1.75
